@@ -1686,7 +1686,7 @@ func ordFrame(w *World, r *EngineResult) {
 		}
 	}
 	r.Stats["frame_reads_feeding_keys"] = n
-	r.floor("frame_reads_feeding_keys", 2)
+	r.floor("frame_reads_feeding_keys", 1)
 }
 
 // ---- ORD-flat (C16, C20) ----
@@ -2034,5 +2034,5 @@ func ordLastWins(w *World, r *EngineResult) {
 		}
 	}
 	r.Stats["loader_table_stores"] = n
-	r.floor("loader_table_stores", 3)
+	r.floor("loader_table_stores", 1)
 }
